@@ -1,7 +1,7 @@
 """C17 - AsyncQueue delivers every element exactly once, in order, then the finish reason.
 
 Case: {"ops": [op, ...]} over
-  enq1 | enq3 | finish | finish_err | cancel_q | recv | cancel_recv | run
+  enq1 | enq3 | enq<N> | finish | finish_err | cancel_q | recv | recvrun | cancel_recv | run | tick
 interpreted by a driver coroutine on the virtual loop. Single consumer: `recv` is skipped while a
 previous receive task is still outstanding (the class documents one consumer)."""
 
@@ -37,7 +37,7 @@ ASSUMPTIONS = [
     "single consumer: a new receive is only started when no receive task is outstanding",
     "virtual loop runs ready callbacks FIFO like asyncio's default loop",
 ]
-EXHAUSTIVE_MEANS = "all operation sequences up to the stated length (quick: 5, thorough: 7)"
+EXHAUSTIVE_MEANS = "all operation sequences over the 8 basic operations up to the stated length (quick: 5, thorough: 7); plus size-directed histories: backlogs of 1..40 elements, the k-th consecutive buffered delivery (k<=32) cancelled at its start"
 OPS = ["enq1", "enq3", "finish", "finish_err", "cancel_q", "recv", "cancel_recv", "run"]
 REQUIRED_CLASSES = ["enqueue-while-receive-pending", "cancelled-pending-receive", "finish-while-receive-pending"]
 
@@ -66,8 +66,9 @@ def budget(tier):
 
 
 def strategy(tier):
-    # weights: receives and runs more frequent so that hand-off situations are common
-    op = st.sampled_from(OPS + ["recv", "run", "enq1", "cancel_recv"])
+    # weights: receives and runs more frequent so that hand-off situations are common; bulk enqueues and completed
+    # receives make long backlogs and long runs of deliveries reachable within 40 operations
+    op = st.sampled_from(OPS + ["recv", "run", "enq1", "cancel_recv", "recvrun", "recvrun", "enq12", "tick", "tick"])
     return st.builds(lambda ops: {"ops": ops}, st.lists(op, min_size=6, max_size=40))
 
 
@@ -76,6 +77,18 @@ def enumerate_cases(tier):
     for length in range(0, n + 1):
         for ops in itertools.product(OPS, repeat=length):
             yield {"ops": list(ops)}
+    # size-directed histories (within 40 operations / 40 elements): a backlog of every size, delivered completely; the
+    # k-th consecutive delivery from the buffer cancelled right after it was started; a waiting consumer handed the first
+    # of N elements and cancelled before it wakes
+    for size in range(1, 41):
+        yield {"ops": [f"enq{size}"]}
+        yield {"ops": ["recv", "run", f"enq{size}", "cancel_recv", "run"]}
+        yield {"ops": [f"enq{size}", "recv", "cancel_recv", "run", "finish"]}
+    for k in range(0, 33):
+        yield {"ops": [f"enq{k + 4}"] + ["recvrun"] * k + ["recv", "cancel_recv", "run", "recvrun", "recvrun"]}
+        yield {"ops": ["enq1"] * (k + 2) + ["recvrun"] * k + ["recv", "run", "cancel_recv", "recvrun"]}
+        for ticks in (1, 2):
+            yield {"ops": [f"enq{k + 4}"] + ["recvrun"] * k + ["recv"] + ["tick"] * ticks + ["cancel_recv", "run", "recvrun", "recvrun"]}
 
 
 def _result(task):
@@ -141,8 +154,8 @@ def run_case(case) -> Outcome:
 
         for op in ops:
             collect()
-            if op in ("enq1", "enq3"):
-                vals = [_element(next(counter)) for _ in range(1 if op == "enq1" else 3)]
+            if op.startswith("enq"):
+                vals = [_element(next(counter)) for _ in range(int(op[3:]))]
                 if pending is not None and not pending.done():
                     log["classes"].add("enqueue-while-receive-pending")
                 try:
@@ -169,9 +182,12 @@ def run_case(case) -> Outcome:
                     new = ("cancel",)
                 if not finished:
                     finished, reason = True, new
-            elif op == "recv":
+            elif op in ("recv", "recvrun"):
                 if pending is None:
                     pending = asyncio.get_running_loop().create_task(receive())
+                if op == "recvrun":  # a receive that is given the time to complete (long runs of deliveries)
+                    await vloop.settle()
+                    collect()
             elif op == "cancel_recv":
                 if pending is not None and not pending.done():
                     log["classes"].add("cancelled-pending-receive")
@@ -179,6 +195,8 @@ def run_case(case) -> Outcome:
                     pending_cancel_requested = True
             elif op == "run":
                 await vloop.settle()
+            elif op == "tick":
+                await asyncio.sleep(0)  # exactly one turn of the loop (a receive may be caught half-way)
             if q.is_finished != finished:
                 out.violate("4", "C17.4/is_finished-mismatch", f"{q.is_finished} vs model {finished}")
 
